@@ -1567,7 +1567,8 @@ impl TransactionBuilder {
     }
 
     pub fn get_reference_inputs(&self) -> TransactionInputs {
-        let mut inputs: HashSet<TransactionInput> = HashSet::new();
+        // an ordered set: the same builder must produce the same bytes on every build
+        let mut inputs: BTreeSet<TransactionInput> = BTreeSet::new();
 
         let mut add_ref_inputs_set = |ref_inputs: TransactionInputs| {
             for input in &ref_inputs {
